@@ -14,9 +14,11 @@ import (
 	"strconv"
 	"strings"
 	"sync"
+	"sync/atomic"
 	"time"
 
 	"github.com/wi1dcard/fingerproxy/pkg/proxyserver"
+	"verifharness/h2raw"
 	"verifharness/stack"
 )
 
@@ -101,7 +103,7 @@ func scenarioTimeouts(enc *json.Encoder, idx int) map[string]any {
 	for i := 0; i < 400 && s.countOp("h2_begin")+s.countOp("h1_sent") < 3; i++ {
 		time.Sleep(5 * time.Millisecond) // until the three HTTP connections are being served
 	}
-	time.Sleep(100 * time.Millisecond) // requests done; the connections are idle from here on
+	time.Sleep(100 * time.Millisecond)   // requests done; the connections are idle from here on
 	cut := s.waitExited(4 * time.Second) // >= 10x the configured timeouts
 	s.Latency["all_cut_after_s"] = time.Since(start).Seconds()
 	if !cut {
@@ -140,6 +142,9 @@ func (s *Scenario) finishHolding(enc *json.Encoder, hold chan struct{}, wg *sync
 // ---------------------------------------------------------------- family S: shutdown (C17)
 
 func scenarioShutdown(enc *json.Encoder, idx int, variant string) map[string]any {
+	if variant == "active" {
+		return scenarioShutdownActive(enc, idx)
+	}
 	s := startScenario(fmt.Sprintf("shutdown-%s-%d", variant, idx), "shutdown", stack.Options{HandshakeTimeout: 5 * time.Second})
 	hold := make(chan struct{})
 	var wg sync.WaitGroup
@@ -228,6 +233,155 @@ func scenarioShutdown(enc *json.Encoder, idx int, variant string) map[string]any
 	res["late_connection_served"] = lateServed
 	res["variant"] = variant
 	return res
+}
+
+// An HTTP/1.1 exchange is in flight at the instant of cancel: the listener stays open while it drains.  Connections
+// attempted in that window - on either protocol - must not be served; the exchange completes intact; then Serve returns.
+func scenarioShutdownActive(enc *json.Encoder, idx int) map[string]any {
+	release := make(chan struct{})
+	arrived := make(chan struct{}, 4)
+	var lateHandled int32
+	// the handler in front of the reverse proxy holds /slow regardless of its context (the reverse proxy itself aborts an
+	// exchange whose context - derived from the server's - is cancelled, which ends it at once); /late must never get here
+	wrap := func(srv *proxyserver.Server) {
+		inner := srv.HTTPServer.Handler
+		srv.HTTPServer.Handler = http.HandlerFunc(func(w http.ResponseWriter, r *http.Request) {
+			if strings.HasPrefix(r.URL.Path, "/slow") {
+				arrived <- struct{}{}
+				<-release
+				w.Header().Set("X-Slow", "done")
+				io.WriteString(w, "slow-response-body")
+				return
+			}
+			if strings.HasPrefix(r.URL.Path, "/late") {
+				atomic.AddInt32(&lateHandled, 1)
+			}
+			inner.ServeHTTP(w, r)
+		})
+	}
+	s := startScenario(fmt.Sprintf("shutdown-active-%d", idx), "shutdown", stack.Options{HandshakeTimeout: 5 * time.Second, MutateServer: wrap})
+	res := map[string]any{}
+	slowDone := make(chan string, 1)
+	go func() {
+		raw, _, err := s.dial("h1")
+		if err != nil {
+			slowDone <- "dial: " + err.Error()
+			return
+		}
+		defer raw.Close()
+		tc, err := tlsClient(raw, []string{"http/1.1"})
+		if err != nil {
+			slowDone <- "handshake: " + err.Error()
+			return
+		}
+		tc.SetDeadline(time.Now().Add(20 * time.Second))
+		io.WriteString(tc, "GET /slow HTTP/1.1\r\nHost: vf.test\r\n\r\n")
+		resp, err := http.ReadResponse(bufio.NewReader(tc), nil)
+		if err != nil {
+			slowDone <- "response: " + err.Error()
+			return
+		}
+		b, _ := io.ReadAll(resp.Body)
+		slowDone <- fmt.Sprintf("%d %s %s", resp.StatusCode, resp.Header.Get("X-Slow"), b)
+	}()
+	select {
+	case <-arrived:
+	case <-time.After(5 * time.Second):
+		s.note("the slow request never reached the backend")
+	}
+	s.r.emit(map[string]any{"op": "cancel"})
+	s.st.Cancel()
+	time.Sleep(150 * time.Millisecond) // the watcher is now inside HTTPServer.Shutdown, waiting for the exchange
+	// late connections during the drain
+	late := map[string]string{}
+	for _, k := range []string{"h2", "h1", "noalpn"} {
+		raw, _, err := s.dial(k)
+		if err != nil {
+			late[k] = "refused"
+			continue
+		}
+		alpn := map[string][]string{"h2": {"h2"}, "h1": {"http/1.1"}, "noalpn": nil}[k]
+		raw.SetDeadline(time.Now().Add(1500 * time.Millisecond))
+		tc := tls.Client(raw, &tls.Config{InsecureSkipVerify: true, ServerName: "vf.test", NextProtos: alpn})
+		if err := tc.Handshake(); err != nil {
+			late[k] = "handshake failed"
+			raw.Close()
+			continue
+		}
+		if k == "h2" {
+			tc.Write([]byte(h2raw.Preface))
+			tc.Write(h2raw.Settings())
+			hc := h2raw.NewConn(tc)
+			tc.Write(h2raw.Headers(1, true, h2raw.Block([]h2raw.HF{{":method", "GET"}, {":scheme", "https"}, {":authority", "vf.test"}, {":path", "/late-h2"}}), nil, 0))
+			if err := hc.WaitStreams(1); err == nil && hc.Resp[1] != nil && hc.Resp[1].Status != "" {
+				late[k] = "served: " + hc.Resp[1].Status
+			} else {
+				late[k] = "not served"
+			}
+		} else {
+			io.WriteString(tc, "GET /late-"+k+" HTTP/1.1\r\nHost: vf.test\r\n\r\n")
+			if resp, err := http.ReadResponse(bufio.NewReader(tc), nil); err == nil {
+				late[k] = fmt.Sprintf("served: %d", resp.StatusCode)
+				resp.Body.Close()
+			} else {
+				late[k] = "not served"
+			}
+		}
+		raw.Close()
+	}
+	res["late_during_drain"] = late
+	early := false
+	select {
+	case err := <-s.st.ServeErr:
+		early = true
+		s.r.emit(map[string]any{"op": "serve_return", "err": errName(err)})
+		s.st.ServeErr <- err
+	default:
+	}
+	res["returned_before_drain"] = early
+	t0 := time.Now()
+	close(release)
+	select {
+	case r := <-slowDone:
+		res["slow_exchange"] = r
+	case <-time.After(8 * time.Second):
+		res["slow_exchange"] = "no response"
+	}
+	returned := false
+	if early {
+		returned = true
+		<-s.st.ServeErr
+	} else {
+		select {
+		case serr := <-s.st.ServeErr:
+			returned = true
+			s.Latency["serve_return_s"] = time.Since(t0).Seconds()
+			s.r.emit(map[string]any{"op": "serve_return", "err": errName(serr)})
+		case <-time.After(10 * time.Second):
+			s.note("Serve did not return within 10s after the last HTTP/1.1 exchange finished")
+		}
+	}
+	_, _, lerr := s.dial("h1")
+	s.waitExited(3 * time.Second)
+	var out map[string]any
+	if returned {
+		out = s.finishCommon(enc)
+	} else {
+		out = s.finish(enc, true)
+	}
+	for k, v := range res {
+		out[k] = v
+	}
+	served := atomic.LoadInt32(&lateHandled) > 0
+	for _, v := range late {
+		if strings.HasPrefix(v, "served") {
+			served = true
+		}
+	}
+	out["late_connection_served"] = served
+	out["late_dial_refused"] = lerr != nil
+	out["variant"] = "active"
+	return out
 }
 
 func (s *Scenario) finishCommon(enc *json.Encoder) map[string]any {
@@ -442,7 +596,7 @@ func runAll(tracePath, reportPath string) {
 	}
 	report = append(report, scenarioLeave(enc, 0, false), scenarioLeave(enc, 1, true))
 	report = append(report, scenarioTimeouts(enc, 0))
-	for i, v := range []string{"none", "early", "idle", "handshaking", "mixed", "repeat", "handoff"} {
+	for i, v := range []string{"none", "early", "idle", "handshaking", "mixed", "repeat", "handoff", "active"} {
 		report = append(report, scenarioShutdown(enc, i, v))
 	}
 	f.Close()
